@@ -21,7 +21,7 @@ ASSUME \A i \in 1..Len(Logs) : TLCSet(i, <<0, "ok">>)
 Rec == Logs[tid][l]
 
 InOf(r) == [start |-> r.start, stop |-> r.stop, write |-> r.write, read |-> r.read, data |-> r.data,
-            ack_i |-> r.ack_i, tscl |-> r.tscl, tsda |-> r.tsda]
+            ack_i |-> r.ack_i, tscl |-> r.tscl, tsda |-> r.tsda, rst |-> r.rst]
 OutOf(r) == [scl |-> r.scl, sda |-> r.sda, busy |-> r.busy, ack_o |-> r.ack_o, data_o |-> r.data_o]
 
 TInit == /\ Init
